@@ -212,6 +212,32 @@ def opt_unwrap_or(I, st, depth, callee, args, body, ln):
     return res
 
 
+def opt_unwrap_or_else(I, st, depth, callee, args, body, ln):
+    v, f = args[0], args[1]
+    mn, pl, known = opt_parts(v)
+    if not known:
+        return TOP
+    res = BOT
+    if pl is not None:
+        res = join(res, pl)
+    if mn:
+        res = join(res, I.call_value(st, depth, f, [], body, ln))
+    return res
+
+
+def opt_map_or(I, st, depth, callee, args, body, ln):
+    v, d, f = args[0], args[1], args[2]
+    mn, pl, known = opt_parts(v)
+    if not known:
+        return TOP
+    res = BOT
+    if pl is not None:
+        res = join(res, I.call_value(st, depth, f, [pl], body, ln))
+    if mn:
+        res = join(res, d)
+    return res
+
+
 def opt_cloned(I, st, depth, callee, args, body, ln):
     v = args[0]
     if isinstance(v, En):
@@ -702,6 +728,8 @@ TABLE = {
     "core::option::Option::<T>::map": opt_map,
     "core::option::Option::<T>::and_then": opt_and_then,
     "core::option::Option::<T>::unwrap_or": opt_unwrap_or,
+    "core::option::Option::<T>::unwrap_or_else": opt_unwrap_or_else,
+    "core::option::Option::<T>::map_or": opt_map_or,
     "core::option::Option::<&T>::cloned": opt_cloned,
     "core::option::Option::<&T>::copied": opt_cloned,
     "core::result::Result::<T, E>::ok": res_ok,
